@@ -66,6 +66,27 @@ def main():
         shutil.copytree("/repo", clean, ignore=ign)
         shutil.copytree("/repo", patched, ignore=ign)
         rc, out = run(["patch", "-p1", "-i", os.path.join(d, "patch.diff")], patched)
+        if rc != 0:
+            # the tree has moved since the change was written: three-way merge against the blobs the diff names (they are in
+            # /repo's history), in a throw-away worktree; conflicts are real overlaps and are reported as "does not apply"
+            shutil.rmtree(patched, ignore_errors=True)
+            shutil.copytree("/repo", patched, ignore=ign)
+            wt = os.path.join(base, "wt")
+            rc_w, out_w = run(["git", "-C", "/repo", "worktree", "add", "--detach", wt, "HEAD"], base)
+            try:
+                if rc_w == 0:
+                    rc, out = run(["git", "apply", "--3way", os.path.join(d, "patch.diff")], wt)
+                    if rc == 0:
+                        for root, dirs, files in os.walk(os.path.join(wt, "asyncfix")):
+                            for f in files:
+                                if f.endswith(".py"):
+                                    src = os.path.join(root, f)
+                                    dst = os.path.join(patched, os.path.relpath(src, wt))
+                                    os.makedirs(os.path.dirname(dst), exist_ok=True)
+                                    shutil.copy(src, dst)
+                        res["patch_applied_by"] = "three-way merge (git apply --3way): the tree moved since the change was written"
+            finally:
+                run(["git", "-C", "/repo", "worktree", "remove", "--force", wt], base)
         res["patch_applies"] = rc == 0
         if rc != 0:
             res["patch_output"] = out[-400:]
